@@ -54,7 +54,7 @@ package remote
 //@   requires [acc] (schema.GlobalMaxRequestsInflight != nil ==> schema.MaxRequestsInflight != nil) && (schema.GlobalTokenBucket != nil ==> schema.TokenBucket != nil)
 //@   modifies *
 //@   ensures [unchanged_keeps_limiter] !defined(newType) ==> f.FlowControl == old(f.FlowControl) && fcsize == old(fcsize) && fcburst == old(fcburst)
-//@   ensures [holders_follow_limiter] old(f.FlowControl) != nil && f.FlowControl != old(f.FlowControl) ==> held[old(f.FlowControl)] == 0
+//@   ensures [holders_follow_limiter] old(f.FlowControl) != nil && f.FlowControl != old(f.FlowControl) ==> held[old(f.FlowControl)] == 0 onlyfor C05
 //@   ensures [same_type_keeps_limiter] defined(newType) ==> (keptType ==> f.FlowControl == old(f.FlowControl))
 //@   ensures [inflight_resized] defined(newType) ==> (keptType && newType == "MaxRequestsInflight" && schema.MaxRequestsInflight != nil ==> fcsize[f.FlowControl] == uint32(schema.MaxRequestsInflight.Max))
 //@   ensures [bucket_resized] defined(newType) ==> (keptType && newType == "TokenBucket" && schema.TokenBucket != nil ==> fcsize[f.FlowControl] == uint32(schema.TokenBucket.QPS) && fcburst[f.FlowControl] == uint32(schema.TokenBucket.Burst))
